@@ -180,13 +180,16 @@ def has_quorum(ctx):
       doc='A4: candidacy increments the term once, votes for itself, asks every voter with its true last index/term; '
           'leader at once only with a majority of one; read-only nodes never start elections',
       assumptions=['A-CLOCK', 'universe'], trusted=['T-TRANSPORT'],
+      cases=[dict(role=r, readonly=ro) for r in (0, 1, 2) for ro in (False, True)],
       canaries=[
           ('drop-selfnode-guard', lambda mod: mutate_function(mod, 'SyncObj._onTick', _mut_election_drop_selfnode), ['O18.1.readonly-never-candidate']),
           ('no-self-vote-reset', lambda mod: mutate_function(mod, 'SyncObj._onTick', _mut_votes_not_reset), ['A4.candidate-state']),
       ])
-def tick_election(ctx):
+def tick_election(ctx, role, readonly):
     so = SO(ctx, UNIVERSE())
     so.assume_inv()
+    ctx.assume(so.get('raftState') == role)
+    ctx.assume(so.get('selfNode').isnone if readonly else Not(so.get('selfNode').isnone))
     old = so.snapshot()
     blk = _election_block(so.mod)
     I = make_interp(ctx, so, registry=SUMMARIES, inline={'SyncObj.__onBecomeLeader', 'SyncObj.__onLeaderChanged'})
